@@ -83,6 +83,13 @@ func (rt *rootTask) run() {
 }
 
 func (wd *World) runProgram() {
+	for _, ops := range wd.prog.Tasks {
+		for _, op := range ops {
+			if op.K == opWarmDone {
+				wd.hasWarm = true
+			}
+		}
+	}
 	for i, ops := range wd.prog.Tasks {
 		st := &scriptTask{wd: wd, idx: i, ops: ops}
 		wd.scripts = append(wd.scripts, st)
@@ -106,6 +113,7 @@ func (wd *World) runEpilogue() {
 			s.gate.Open()
 		}
 	}
+	wd.root.releaseStalls()
 	simrt.WaitQuiescent()
 	w := wd.w
 	for i := 0; i < 4; i++ {
@@ -200,4 +208,11 @@ func runEpisode(prop *Property, cfg Cfg, prog *Program, seed uint64, replay []ui
 		judgeRaces(ep)
 	}
 	return ep
+}
+
+// releaseStalls lets every acknowledgement that is stalled in the simulated backend return.
+func (wd *World) releaseStalls() {
+	if wd.stalledNow > 0 {
+		wd.stallEpoch++
+	}
 }
